@@ -1,6 +1,7 @@
 package main
 
 import (
+	"runtime"
 	"os/exec"
 	"context"
 	"encoding/json"
@@ -501,11 +502,36 @@ func solveMany(cxOf map[*Obligation]*Ctx, obls []*Obligation, opt solveOpts) {
 			<-done
 		}
 	}
+	// a loaded machine makes every solver slow: scale the timeouts with the load
+	// (1-minute load average per core), never below the nominal values
+	lf := loadFactor()
+	scale := func(d time.Duration) time.Duration { return time.Duration(float64(d) * lf) }
+	t1 = scale(t1)
+	opt.timeout = scale(opt.timeout)
 	run(obls, opt.par, solveOpts{timeout: t1, seed: opt.seed, par: 1, cross: opt.cross, workDir: opt.workDir})
-	var again []*Obligation
-	for _, o := range obls {
-		if !o.ExpectSat && (o.Status == "timeout" || o.Status == "unknown") {
-			again = append(again, o)
+	undecided := func() []*Obligation {
+		var l []*Obligation
+		for _, o := range obls {
+			if !o.ExpectSat && (o.Status == "timeout" || o.Status == "unknown") {
+				l = append(l, o)
+			}
+		}
+		return l
+	}
+	again := undecided()
+	if len(again) > 16 {
+		// many undecided obligations at once is the signature of an overloaded machine,
+		// not of a code change (those leave a handful): one more pass, fewer at a time, 3x the time
+		allTimeouts := true
+		for _, o := range again {
+			if o.Status != "timeout" {
+				allTimeouts = false
+			}
+		}
+		if allTimeouts {
+			lf2 := loadFactor()
+			run(again, max(2, opt.par/4), solveOpts{timeout: time.Duration(float64(3*t1) * lf2 / lf), seed: opt.seed + 3, par: 1, cross: false, workDir: opt.workDir})
+			again = undecided()
 		}
 	}
 	if len(again) > 16 {
@@ -570,4 +596,28 @@ func encoderSide(name string) bool {
 		}
 	}
 	return false
+}
+
+// loadFactor: 1-minute load average divided by the number of cores, clamped to [1,6].
+func loadFactor() float64 {
+	b, err := os.ReadFile("/proc/loadavg")
+	if err != nil {
+		return 1
+	}
+	f := strings.Fields(string(b))
+	if len(f) == 0 {
+		return 1
+	}
+	l, err := strconv.ParseFloat(f[0], 64)
+	if err != nil {
+		return 1
+	}
+	x := l / float64(runtime.NumCPU())
+	if x < 1 {
+		return 1
+	}
+	if x > 6 {
+		return 6
+	}
+	return x
 }
